@@ -19,6 +19,13 @@ Programs (all built through the public API, each point from clean registries, ev
   partner's known axes chunked differently from x's (regression 211b84a); 1-3 partners; binops / where / blockwise;
   single or fused with following elemwise ops / reductions (stratified).
 Oracles: NumPy on the same data; block-count / layout agreement read off the real expressions (no model involved).
+
+Signatures (derived from the INPUT class, i.e. from the block grids the aligned nodes see):
+  unknown:block-counts-differ:{unify,lowered,values}   operands with different block counts on an unknown index accepted
+  unknown:{unify,lowered}:layouts-differ               known axes left with different cuts (regression 211b84a)
+  unknown:values:blocks-aligned, unknown:lowered:advertised-chunks-differ, unknown:resolved:*, unknown:raises:<Class>
+  known findings (one fixed probe each, PROBES; further members met by the random stream are only counted):
+    unknown-elemwise-positional-blocks, unknown:refine:single-block-operand-unaligned, unknown:equal-count-known-cuts-differ
 """
 from __future__ import annotations
 
